@@ -5,7 +5,70 @@
 // contained in the chain but endorsing the OTHER fork's keystone is rejected at activation, so only own endorsements occur.
 #include "common/real_env.hpp"
 using namespace vr;
+#ifdef DBG
+#include <cstdio>
+#endif
 static int64_t tbl(const std::vector<uint32_t>& t, int64_t rel) { return (rel < 0 || rel >= (int64_t)t.size()) ? 0 : (int64_t)t[(size_t)rel]; }
+#ifdef KS2
+// two keystones per fork (heights 2 and 4): reference scorer as in C03/h_score.cpp (appendix A), NONE = no publication
+static const int64_t NONE = 0x7fffffff;
+static int64_t refScore2(const std::vector<uint32_t>& table, int64_t fd, const int64_t* A, const int64_t* B) {
+  bool outA = false, outB = false; int64_t sA = 0, sB = 0, prevA = NONE, prevB = NONE;
+  for (int k = 0; k < 2; k++) {
+    bool hasA = !outA, hasB = !outB;
+    int64_t pA = hasA ? A[k] : NONE, pB = hasB ? B[k] : NONE;
+    if (hasA && pA - prevA > fd) { outA = true; hasA = false; }
+    prevA = pA;
+    if (hasB && pB - prevB > fd) { outB = true; hasB = false; }
+    prevB = pB;
+    if (!hasA && !hasB) { if (outA && outB) break; continue; }
+    if (!hasA) { sB += tbl(table, 0); outA = true; if (sB > sA) break; continue; }
+    if (!hasB) { sA += tbl(table, 0); outB = true; if (sA > sB) break; continue; }
+    int64_t e = pA < pB ? pA : pB;
+    sA += tbl(table, pA - e); sB += tbl(table, pB - e);
+    if (pA - pB > fd) outA = true;
+    if (pB - pA > fd) outB = true;
+  }
+  return sA - sB;
+}
+extern "C" __attribute__((noinline)) void h_realcmp() {
+  RealWorld& w = newRealWorld();
+  AltBlockTree& t = *w.alt;
+  const int NV = 11;
+  for (int v = 1; v < NV; v++) mineVbk(w, (uint8_t)v);
+  // fork A: 2..6 (heights 1..5, keystones 3 and 5), fork B: 7..11 (keystones 8 and 10)
+  addAltHeader(w, 2, 1); for (uint8_t a = 3; a <= 6; a++) addAltHeader(w, a, (uint8_t)(a - 1));
+  addAltHeader(w, 7, 1); for (uint8_t a = 8; a <= 11; a++) addAltHeader(w, a, (uint8_t)(a - 1));
+  static const int hts[3] = {0, 2, 10};
+  int h[4]; for (int k = 0; k < 4; k++) h[k] = hts[verif_choice(0, 2)];          // A1, A2, B1, B2
+  PopData ctx; for (int v = 2; v <= NV; v++) ctx.context.push_back(w.vbkById[v]);
+  PopData pd[12];
+  pd[2] = ctx; pd[7] = ctx;
+  if (h[0]) pd[4].atvs.push_back(makeATV(w, 3, 3, (uint8_t)(h[0] + 1), 1));
+  if (h[1]) pd[6].atvs.push_back(makeATV(w, 5, 5, (uint8_t)(h[1] + 1), 2));
+  if (h[2]) pd[9].atvs.push_back(makeATV(w, 8, 8, (uint8_t)(h[2] + 1), 3));
+  if (h[3]) pd[11].atvs.push_back(makeATV(w, 10, 10, (uint8_t)(h[3] + 1), 4));
+  for (uint8_t a = 2; a <= 11; a++) t.acceptBlock(altHash(a), pd[a]);
+  ValidationState s;
+  verif_check(t.setState(altHash(6), s), 1);
+  int r = t.comparePopScore(altHash(6), altHash(11));
+  // publication of keystone K = earliest block of proof among the endorsements of the blocks K .. K+interval+1 (the blocks whose header still
+  // references K as a previous keystone): with interval 2 an endorsement of the second keystone (height 4) also publishes the first one (height 2)
+  auto mn = [](int64_t x, int64_t y) { return x < y ? x : y; };
+  int64_t a1 = h[0] ? h[0] : NONE, a2 = h[1] ? h[1] : NONE, b1 = h[2] ? h[2] : NONE, b2 = h[3] ? h[3] : NONE;
+  int64_t A[2] = {mn(a1, a2), a2}, B[2] = {mn(b1, b2), b2};
+  int64_t ref = refScore2(w.ap.getForkResolutionLookUpTable(), (int64_t)w.ap.getFinalityDelay(), A, B);
+  int want = ref > 0 ? 1 : (ref < 0 ? -1 : 0), got = r > 0 ? 1 : (r < 0 ? -1 : 0);
+#ifdef DBG
+  fprintf(stderr, "h=%d %d %d %d r=%d ref=%lld tip=%d\n", h[0], h[1], h[2], h[3], r, (long long)ref, t.getBestChain().tip()->getHash()[0]);
+#endif
+  verif_check(got == want, 2);
+  verif_check((t.getBestChain().tip()->getHash()[0] == 11) == (want < 0), 3);
+  if (want > 0) verif_cover(1); if (want < 0) verif_cover(2); if (want == 0) verif_cover(3);
+  if (want != 0 && ((h[0] && h[2] && h[0] != h[2]) && (h[1] && h[3] && h[1] != h[3]) && ((h[0] < h[2]) != (h[1] < h[3])))) verif_cover(4);   // the two keystones pull in opposite directions
+  verif_observe((uint64_t)(int64_t)r);
+}
+#else
 extern "C" __attribute__((noinline)) void h_realcmp() {
   RealWorld& w = newRealWorld();
   AltBlockTree& t = *w.alt;
@@ -42,3 +105,4 @@ extern "C" __attribute__((noinline)) void h_realcmp() {
   if (want > 0) verif_cover(1); if (want < 0) verif_cover(2); if (want == 0 && hA && hB && hA != hB) verif_cover(3); if (want == 0 && !hA && !hB) verif_cover(4);
   verif_observe((uint64_t)(int64_t)r);
 }
+#endif
